@@ -124,4 +124,9 @@ def run(tier, seed):
         res.sample({"backend": "pyopenssl", "body_length": 16385, "received_equals_expected": True})
     finally:
         shutil.rmtree(tmp, ignore_errors=True)
+    # live: the real start_server on 127.0.0.1, both backends, fast and stalled readers of a 6 MiB static file
+    import livetls
+    livetls.run_slow_readers(res, tier)
+    res.rule += (" | live: start_server in its own process, 6 MiB static file, raw TLS client with a 32 KiB receive buffer that reads the header, "
+                 "stalls (0 s, 3 s; thorough also 12 s and 33 s; and 2.5 s against asyncio's TLS shutdown timeout compressed to 1 s) and then drains")
     return res
